@@ -41,6 +41,13 @@ def twin_harness(name, prof, templates, required_notes=("c06_switched",)):
                    required_notes=required_notes)
 
 
+def _whose(run, exc):
+    for j in run.jobs():
+        if j.exc is exc:
+            return j.name
+    return type(exc).__name__
+
+
 def compare(api, ra, rb, switched):
     """every observable of run B (some non-critical jobs raise) equals run A (they return)"""
     if api.possible(sor(*switched.values())):
@@ -54,7 +61,7 @@ def compare(api, ra, rb, switched):
                % (ra.outcome[1], rb.outcome[1]), rb, {"A": ra.dump()})
     if ra.outcome[0] == "exc":
         xa, xb = ra.outcome[1], rb.outcome[1]
-        if type(xa) is not type(xb) or str(xa) != str(xb):
+        if _whose(ra, xa) != _whose(rb, xb):
             O.fail(api, "C06: run() raises %r vs %r" % (xa, xb), rb, {"A": ra.dump()})
     extra = {"A": ra.dump()}
     for name, na in ra.nodes.items():
@@ -92,8 +99,8 @@ def harnesses(tier):
         return [
             twin_harness("flat-window", Profile(raises=False, crit_job=False, window="free", perm="two",
                                                 top="pure"), ("F3",)),
-            twin_harness("flat-critical-mix", Profile(raises="free", crit_job="free", perm="id", top="pure",
-                                                      edges="free"), ("F3",)),
+            twin_harness("flat-critical-mix", Profile(raises="free", crit_job="free", perm="id", top="sched",
+                                                      top_crit="free", edges="free", verbose=True), ("F3",)),
             twin_harness("nested", Profile(raises=False, crit_job=False, crit_sched="free", perm="id",
                                            window="free", window_scope="nested"), ("N12",)),
         ]
